@@ -3,7 +3,7 @@
 import shutil
 import tempfile
 
-from auditok import AudioReader
+from auditok import AudioReader, Recorder
 
 from .. import readercommon as RC
 from ..models import frame as F
@@ -31,7 +31,11 @@ def run_reader_case(ctx, case, tmpdir):
     data = RC.audio_of(case)
     cj = dict(case)
     try:
-        reader, cleanup = RC.build_reader(case, data, tmpdir)
+        if case.get("record") and (case["seed"] >> 2) % 2:
+            reader, cleanup = RC.build_reader(case, data, tmpdir, cls=Recorder)  # the class that is "AudioReader(record=True)"
+            ctx.count("readers_built_as_Recorder")
+        else:
+            reader, cleanup = RC.build_reader(case, data, tmpdir)
     except Exception as exc:
         ctx.case(repr(sorted(cj.items())), True)
         ctx.violation("constructor-raises:" + type(exc).__name__, {"case": cj, "exception": repr(exc)[:300]})
